@@ -2,6 +2,7 @@ SPECIFICATION ISpec
 CONSTANTS
   Ms = {1, 2, 4, 8, 16, 32, 64}
   RecThreshold = 2048
+  Layout = "reim"
   GenMode = FALSE
 INVARIANTS IWellFormed InverseIsInverse
 CHECK_DEADLOCK FALSE
